@@ -31,12 +31,42 @@ def parseBinds (ws : List String) : Option (List (Nat × List Nat)) :=
       | _, _ => none
     | _ => none
 
-/-- driver state: the distances bound by the last `bind` line (peer id ↦ distance to the target, computed here with
-the model's own SHA-256); every `id:dist` pair of a following peer-list op must agree with them -/
-abbrev DSt := List (Nat × Nat)
+/-- driver state: the target address and the peers' addresses of the last `bind` line, with the distances (peer id ↦
+distance to the target, computed here with the model's own SHA-256); every `id:dist` pair of a following peer-list op
+must agree with them, and `sort` / `inrange` / `closest` are then decided by the ADDRESS-level definitions
+(`sortPeersByKeyAddr`, `getPeersInRangeAddr`, `calcClosestAddr`: SHA-256, XOR, the decimal detour of
+`convert_distance_to_u256`, comparison) on those addresses -/
+structure DSt where
+  target : Option Addr := none
+  addrs : List (Nat × Addr) := []
+  ds : List (Nat × Nat) := []
 
 def boundOk (st : DSt) (ps : List Peer) : Bool :=
-  st.isEmpty || ps.all (fun p => st.lookup p.1 == some p.2)
+  st.ds.isEmpty || ps.all (fun p => st.ds.lookup p.1 == some p.2)
+
+/-- the address-level peer list of an op line (ids looked up among the bound addresses) -/
+def apeers (st : DSt) (ps : List Peer) : Option (List APeer) :=
+  ps.mapM (fun p => (st.addrs.lookup p.1).map (fun a => (p.1, a)))
+
+/-- the address-level decision for a peer-list op after a `bind` (`none`: op has no address-level definition) -/
+def stepAddr (st : DSt) (t : Addr) (ws : List String) : Option String :=
+  match ws with
+  | "sort" :: n :: rest =>
+    match n.toNat?, (parsePeers rest).bind (apeers st) with
+    | some n, some ps =>
+      some (match sortPeersByKeyAddr t ps n with
+        | some r => tagNats "ok" (r.map (·.1))
+        | none => "err notenough")
+    | _, _ => some "bad-op"
+  | "inrange" :: r :: rest =>
+    match r.toNat?, (parsePeers rest).bind (apeers st) with
+    | some r, some ps => some (tagNats "ok" ((getPeersInRangeAddr t ps r).map (·.1)))
+    | _, _ => some "bad-op"
+  | "closest" :: n :: r :: rest =>
+    match optNat n, optNat r, (parsePeers rest).bind (apeers st) with
+    | some n, some r, some ps => some (tagNats "ok" ((calcClosestAddr t ps n r).map (·.1)))
+    | _, _, _ => some "bad-op"
+  | _ => none
 
 def stepU (ws : List String) : String :=
   match ws with
@@ -88,14 +118,16 @@ def stepU (ws : List String) : String :=
 
 def step (st : DSt) (ws : List String) : DSt × String :=
   match ws with
-  | "target" :: _ => ([], "bad-op")
+  | "target" :: _ => ({}, "bad-op")
   | "bind" :: tb :: rest =>
     -- distances from the target to every listed peer, from the raw address bytes through the model's SHA-256
     match unhex tb, parseBinds rest with
     | some t, some bs =>
       let ta : Addr := { kind := .recordKey, raw := t, xorname := [] }
-      let ds := bs.map (fun (i, b) => (i, convert (distSha ta { kind := .recordKey, raw := b, xorname := [] })))
-      (ds, if ds.isEmpty then "-" else " ".intercalate (ds.map (fun (i, d) => s!"{i}:{d}")))
+      let as := bs.map (fun (i, b) => (i, ({ kind := .recordKey, raw := b, xorname := [] } : Addr)))
+      let ds := as.map (fun (i, a) => (i, convert (distSha ta a)))
+      ({ target := some ta, addrs := as, ds := ds },
+        if ds.isEmpty then "-" else " ".intercalate (ds.map (fun (i, d) => s!"{i}:{d}")))
     | _, _ => (st, "bad-op")
   | op :: rest =>
     if op ∈ ["sort", "inrange", "closest", "replcand", "closegroup"] then
@@ -106,7 +138,14 @@ def step (st : DSt) (ws : List String) : DSt × String :=
           | some x, some y => some (x, y)
           | _, _ => none
         | _ => none)
-      if boundOk st pairs then (st, stepU ws) else (st, "unbound-dist")
+      if boundOk st pairs then
+        let num := stepU ws
+        -- after a `bind`: the address-level definition decides; it must agree with the number-level one on the
+        -- line's distances (Lean: `sort_addr_is_sort_of_distances` etc.)
+        match st.target.bind (fun t => stepAddr st t ws) with
+        | some a => (st, if a == num then a else s!"addr-num-mismatch addr=[{a}] num=[{num}]")
+        | none => (st, num)
+      else (st, "unbound-dist")
     else (st, stepU ws)
   | [] => (st, stepU ws)
 
